@@ -34,7 +34,7 @@ def tlc_phase(ctx):
               "MC_Layout_enum_sc_%s.cfg" % tier, "MC_Layout_enum_uc_%s.cfg" % tier]
     if not ctx.quick:
         design.append("MC_Layout_cur_noraise_thorough.cfg")
-    ntr = int(os.environ.get("VERIF_C06_TRACES", "100" if ctx.quick else "1500"))
+    ntr = int(os.environ.get("VERIF_C06_TRACES", "100" if ctx.quick else "800"))
     nen = 150 if ctx.quick else 2000
     jobs = [(c, {}) for c in design]
     jobs += [("MC_Layout_emit.cfg", {}),
